@@ -220,6 +220,7 @@ def _verify_param(args):
 PARAM_CLAUSES = {
     "C20": {"typed", "deterministic", "idempotent", "pure", "raises_only", "cover"},
     "C13": {"raises_only", "str", "cover"},
+    "C12": {"typed", "cover"},
     "C11": {"lineno", "cover"},
 }
 
@@ -667,6 +668,16 @@ def parser_property(prop, tier, seed):
                            "EEMS 2.0 commands); parse(render(ast)) is compared with ast incl. the line of every command, argument and element; the same text is "
                            "parsed 2-3 times on one Parser object; single-token corruptions must not raise anything but SyntaxError / MPilotError; distinct by text"
                            % (len(parsecases.PLAINS), len(parsecases.QSTRS))}
+    if prop == "C11":
+        from . import loadrun
+
+        extra = loadrun.lineno_parts(rep, root, repo, tier, seed)
+        rep.bounded["parts"] = [dict(name="parser", evaluations=rep.bounded["evaluations"], distinct_nontrivial=rep.bounded["distinct_nontrivial"], failures=rep.bounded["failures"])] + extra
+        rep.bounded["evaluations"] += sum(p.get("evaluations", 0) for p in extra)
+        rep.bounded["distinct_nontrivial"] += sum(p.get("distinct_nontrivial", 0) for p in extra)
+        rep.bounded["failures"] += sum(p.get("failures", 0) for p in extra)
+        rep.bounded["rule"] += ("; plus single faults at lines known by construction in models over every command x parameter (error line = line of the faulty "
+                                "argument or its command), the cleaner value battery (error line = line handed in) and command-line runs (the `-->` line is the faulty line)")
     if prop == "C10":
         rep.explanation = ("Proved: the token regexes accept exactly the documented lexemes, no earlier rule pre-empts them, maximal munch stops at the lexeme (regular-language "
                            "emptiness queries over the rule strings extracted from the source, in PLY's order); the token functions convert to the number written / the "
@@ -676,8 +687,11 @@ def parser_property(prop, tier, seed):
     else:
         rep.explanation = ("Proved: t_newline / t_STRING advance lineno by exactly the line breaks they consume, no other rule can consume a line break (L-NL), "
                            "count_line_breaks counts LF, CR and CR/LF once each, Parser.parse resets lineno to 1 before every parse, every node-building action stores "
-                           "p.lineno(1) (the line of the node's first token); error classes report the line they were given; the cleaners pass on the line they were given "
-                           "(see also C12/C13). Assumed: LEX/YACC contracts. Bounded (B-LINES): real parses incl. CRLF, comments, multi-line arguments and repeated parses "
+                           "p.lineno(1) (the line of the node's first token); from_source gives every Argument / ListArgument the line of its argument node (list elements "
+                           "their own lines), hands add_command the command node's line and raises CommandDoesNotExist with it; add_command reports duplicates / missing "
+                           "parameters with the command's line and an undeclared parameter with that argument's line; Program.run's pre-pass cleans each argument with the "
+                           "argument's own line; every cleaner raises with the line it was given; every error class keeps the line it was given; the CLI marks "
+                           "lines[lineno-1] of the file it read. Assumed: LEX/YACC contracts. Bounded (B-LINES): real parses incl. CRLF, comments, multi-line arguments and repeated parses "
                            "on one Parser object.")
 
     def rerun(w):
